@@ -1299,6 +1299,96 @@ Proof.
   - apply IH.
 Qed.
 
+(** * End to end: wiring and resolution together *)
+
+Lemma nth_map_error {A} (f : A -> bool) l i x : nth_error l i = Some x -> nth i (map f l) false = f x.
+Proof.
+  revert i. induction l as [|y l IH]; intros [|i]; cbn [nth_error map nth]; try discriminate.
+  - now intros [= ->].
+  - apply IH.
+Qed.
+
+Section EndToEnd.
+  Variables (ls : list leaf) (ps : list N) (hops : list (list N * list nat)) (last_sizes : list nat) (qs : list N).
+  Variable w : wired.
+  Hypothesis Hlabels : NoDup (map l_cb ls).
+  Hypothesis Hports : NoDup (ps ++ fake_ids ls).
+  Hypothesis Hhops : Forall hop_ok hops.
+  Hypothesis Hwire : wire ls ps hops last_sizes qs = WOk w.
+
+  (** The request of the i-th travelling half is accepted iff the half travels normally. *)
+  Lemma decisions_spec i p cb :
+    nth_error (w_table w) i = Some (p, cb) ->
+    (nth i (decisions w) false = true <-> exists l, In l ls /\ l_cb l = cb /\ l_mode l = MReal).
+  Proof.
+    intros Hi. unfold decisions. rewrite (nth_map_error _ _ _ _ Hi). cbn [fst].
+    destruct (wire_inv _ _ _ _ _ _ Hwire) as [pl [fin [m [E1 [E2 [E3 [E4 E5]]]]]]].
+    pose proof (table_ports_nodup _ _ _ Hports _ E1) as NDall.
+    assert (NDt : NoDup (map fst (w_table w))) by (now apply nodup_app_l in NDall).
+    pose proof (serialize_labels_nodup _ _ _ _ E1 Hlabels) as NDl.
+    pose proof (route_spec _ _ _ _ E2 Hhops) as F.
+    assert (Hids : map r_id fin = map fst (w_table w)).
+    { rewrite (Forall2_map_eq r_id r_id fin (origin_reqs (w_table w))).
+      - now rewrite origin_reqs_ids.
+      - eapply Forall2_impl_in; [|exact F]. cbn beta. now intros ? ? _ [? _]. }
+    assert (NDfin : NoDup (map r_id fin)) by now rewrite Hids.
+    destruct (match_reqs_spec _ _ _ _ _ E5 NDfin) as [I1 _].
+    pose proof (serialize_entry_ids _ _ _ _ E1 NDall) as NDe.
+    destruct (deser_spec _ _ _ _ E4 NDe) as [D1 D2].
+    pose proof (nth_error_In _ _ Hi) as Hin.
+    split.
+    - intros H. apply existsb_exists in H. destruct H as [a [Ha Hid]]. apply N.eqb_eq in Hid.
+      apply I1 in Ha. destruct Ha as [_ Hm]. rewrite Hid in Hm.
+      destruct (in_dec N.eq_dec p (map fst (entries pl))) as [He|He]; [|rewrite (D2 _ He) in Hm; discriminate].
+      apply in_map_iff in He. destruct He as [[id cb'] [Hid' He]]. cbn [fst] in Hid'. subst id.
+      destruct (serialize_entries _ _ _ _ E1 _ _ He) as [[H1 [l [Hl [Hcb M]]]]|H1].
+      + exists l. repeat split; auto.
+        pose proof (in_assoc_nodup _ _ _ NDt H1). pose proof (in_assoc_nodup _ _ _ NDt Hin). congruence.
+      + exfalso. apply (nodup_app_disj _ _ p NDall); [|exact H1]. apply in_map_iff. now exists (p, cb).
+    - intros [l [Hl [Hcb M]]]. subst cb.
+      destruct (serialize_real _ _ _ _ E1 _ Hl M) as [p' [Ht He]].
+      assert (p' = p) by (eapply nodup_snd_key; eauto). subst p'.
+      destruct (D1 _ _ He) as [q Hq].
+      assert (Hr0 : In (mkReq p p) (origin_reqs (w_table w))).
+      { unfold origin_reqs. apply in_map_iff. now exists (p, l_cb l). }
+      destruct (Forall2_in_r _ _ _ _ F Hr0) as [f [Hf [Hid Htr]]]. cbn [r_id r_port] in *.
+      apply existsb_exists. exists (mkAcc f q (l_cb l)). split.
+      + apply I1. cbn [a_req a_port a_cb]. split; [exact Hf|]. now rewrite Hid.
+      + cbn [a_req]. now apply N.eqb_eq.
+  Qed.
+
+  (** End to end: the value is wired ([wire]) and its requests resolve under an arbitrary schedule with
+      the far end's decisions computed by the matching; at quiescence, when no connection was lost,
+      the callback of every normally travelling half got its connected port at both ends, and the
+      callback of every half the far end does not know got an error, with nothing left at the far end. *)
+  Theorem end_to_end acts :
+    let s := run acts (init_sys (S (length hops)) (decisions w)) in
+    quiescent s -> s_dead s = [] ->
+    forall i p cb r, nth_error (w_table w) i = Some (p, cb) -> nth_error (s_reqs s) i = Some r ->
+      ((exists l, In l ls /\ l_cb l = cb /\ l_mode l = MReal) -> r_phase r = DoneOk /\ r_far r = FConn) /\
+      ((exists l, In l ls /\ l_cb l = cb /\ l_mode l = MIgnored) -> r_phase r = DoneErr /\ r_far r = FNone).
+  Proof.
+    intros s Hq Hd i p cb r Hi Hr.
+    pose proof (resolved_at_quiescence (S (length hops)) (decisions w) acts ltac:(lia) Hq i r Hr) as H.
+    fold s in H.
+    pose proof (decisions_spec _ _ _ Hi) as DS.
+    split.
+    - intros Hreal. apply DS in Hreal. rewrite Hreal in H. destruct H as [H|[_ H]]; [exact H|]. now rewrite Hd in H.
+    - intros [l [Hl [Hcb M]]].
+      destruct (nth i (decisions w) false) eqn:ED; [|exact H].
+      exfalso. destruct DS as [DS1 _]. destruct (DS1 eq_refl) as [l' [Hl' [Hcb' M']]].
+      assert (l' = l).
+      { clear - Hlabels Hl Hl' Hcb Hcb'. assert (Hsame : l_cb l' = l_cb l) by congruence. clear Hcb Hcb'.
+        induction ls as [|x xs IH]; [destruct Hl|]. cbn [map] in Hlabels. inversion Hlabels as [|? ? Hn ND]; subst.
+        destruct Hl as [->|Hl], Hl' as [->|Hl'].
+        + reflexivity.
+        + exfalso. apply Hn. rewrite <- Hsame. now apply in_map.
+        + exfalso. apply Hn. rewrite Hsame. now apply in_map.
+        + auto. }
+      subst l'. congruence.
+  Qed.
+End EndToEnd.
+
 (** * Facts read off the source (regenerated on every run) *)
 Lemma source_shape :
   ser_id_is_port = true /\ ser_callbacks_in_order = true /\ forward_keeps_id = true /\
